@@ -41,6 +41,10 @@ PROPS = {
             {"engine": "log", "test": "TestVF_C20_Exhaustive", "kind": "plain", "tiers": ["thorough"]},
         ],
     },
+    "C12": {"level": "exploration", "assumptions": MP_ASSUME + ["sink faults are injected by call ordinal on mock sinks; the real file recorder's own failure modes are exercised by the e2e checks"],
+            "parts": [{"engine": "mp", "test": "TestVF_C12", "quick": (4, 1000), "thorough": (16, 30000)}]},
+    "C17": {"level": "exploration", "assumptions": MP_ASSUME,
+            "parts": [{"engine": "mp", "test": "TestVF_C17", "quick": (4, 750), "thorough": (16, 25000)}]},
     "C19": {
         "level": "exploration",
         "assumptions": BASE_ASSUME + ["every Move is preceded by a write into the current slot, as in both callers"],
